@@ -434,6 +434,7 @@ class ValueRun:
         self.plan = plan
         self.garbage_seed = garbage_seed
         self.weight_logs = {}
+        self.inexact = False
 
     def run(self, inputs):
         """inputs: list of ndarrays in model input order.  -> list of output ndarrays (model output order)"""
@@ -495,6 +496,7 @@ class ValueRun:
                     vm.add("scratch:%d" % op.idx, rs.randint(0, 256, size=max(16, e["scratch_t"].elems()), dtype=np.uint8))
                 dp = arith.Datapath(plan.acc, vm)
                 dp.run(ent["prep"].prog)
+                self.inexact = self.inexact or dp.inexact
                 self.weight_logs[op.idx] = dp.weight_log
             else:
                 for ti in op.inputs:
